@@ -17,7 +17,8 @@ F(S) == [k \in {x[1] : x \in S} |-> (CHOOSE x \in S : x[1] = k)[2]]      \* set 
 UOpts == {"none", "plain", "filterA", "filterB", "gp", "gp+filterA"}
 GOpts == {"idle60", "idle30", "pool", "filterA"}
 
-Build(uopt, idle, gopt, topt, sfx, ovl, two) ==
+\* cseq: sequence number of the certificate map rule (the device may number it differently)
+BuildC(uopt, idle, gopt, topt, sfx, ovl, two, cseq) ==
   LET gen   == sfx # ""
       aclA  == "vpnfA" \o sfx    aclB == "vpnfB" \o sfx   gpn == "VPN-group" \o sfx   pooln == "pool" \o sfx
       cmn   == "ca-map" \o sfx   tgn == "VPN-tunnel" \o sfx
@@ -44,10 +45,10 @@ Build(uopt, idle, gopt, topt, sfx, ovl, two) ==
                \cup (IF useB THEN {<<Key("acl", aclB), O("acl", aclB, gen, {L("", "extended permit ip host 10.1.1.2 any4", <<>>)})>>} ELSE {})
       pool  == IF usePool THEN {<<Key("pool", pooln), O("pool", pooln, gen, {L("", "10.1.219.192-10.1.219.255 mask 0.0.0.63", <<>>)})>>} ELSE {}
       chain == IF topt # "map" THEN {} ELSE
-               {<<Key("cm", cmn), O("cm", cmn, gen, {L("20", "subject-name attr ea co @sub.example.com", <<>>)})>>,
+               {<<Key("cm", cmn), O("cm", cmn, gen, {L(cseq, "subject-name attr ea co @sub.example.com", <<>>)})>>,
                 <<Key("tg", tgn), O("tg", tgn, gen, {L("", "type remote-access", <<>>),
                                                       L("general-attributes", "default-group-policy $", <<Key("gp", gpn)>>)})>>,
-                <<Key("tgm", ""), O("tgm", "", FALSE, {L("", "$ 20 $", <<Key("cm", cmn), Key("tg", tgn)>>)})>>}
+                <<Key("tgm", ""), O("tgm", "", FALSE, {L(cseq, "$ # $", <<Key("cm", cmn), Key("tg", tgn)>>)})>>}
       extra == IF ovl = "foreign" THEN
                {<<Key("gp", "foreign-gp"), O("gp", "foreign-gp", FALSE, {L("", "internal", <<>>),
                                                L("attributes", "vpn-filter value $", <<Key("acl", "foreign-acl")>>)})>>,
@@ -61,9 +62,11 @@ Build(uopt, idle, gopt, topt, sfx, ovl, two) ==
                ELSE {}
   IN [objs |-> F(user \cup gp \cup acls \cup pool \cup chain \cup extra)]
 
+Build(uopt, idle, gopt, topt, sfx, ovl, two) == BuildC(uopt, idle, gopt, topt, sfx, ovl, two, "20")
+
 F5 ==
   \E ud, ut \in UOpts, id, it \in {"60", "30"}, gd, gt \in GOpts, td, tt \in {"none", "map"},
-     sfx \in {"", "-DRC-0"}, ovl \in {"none", "foreign", "foreign-tg", "leftover"}, twod, twot \in BOOLEAN :
+     sfx \in {"", "-DRC-0"}, ovl \in {"none", "foreign", "foreign-tg", "leftover"}, twod, twot \in BOOLEAN, cs \in {"20", "10"} :
     /\ (ud \notin {"gp", "gp+filterA"} /\ td = "none" /\ ovl # "foreign-tg") => gd = "idle60"   \* group-policy unused: one representative
     /\ (ut \notin {"gp", "gp+filterA"} /\ tt = "none") => gt = "idle60"
     /\ (ud = "none") => id = "60"
@@ -72,8 +75,35 @@ F5 ==
     /\ (~(ud \in {"filterA", "gp+filterA"} \/ gd = "filterA") => ~twod)
     /\ (ovl = "foreign-tg" /\ ud \notin {"gp", "gp+filterA"} /\ td = "none" => sfx = "-DRC-0")
     /\ (~(ut \in {"filterA", "gp+filterA"} \/ gt = "filterA") => ~twot)
-    /\ dev = Build(ud, id, gd, td, sfx, ovl, twod)
+    /\ (td = "none" => cs = "20")
+    /\ dev = BuildC(ud, id, gd, td, sfx, ovl, twod, cs)
     /\ tgt = Build(ut, it, gt, tt, "", "none", twot)
+
+(* F5U: several users (several anchors of one prefix) that share or do not share a group-policy and *)
+(* filter ACLs; all of them change in one run                                                      *)
+UserObj(n, idle, fa, g) ==
+  <<Key("user", n), O("user", n, FALSE,
+      {L("", "nopassword", <<>>), L("attributes", "service-type remote-access", <<>>), L("attributes", "vpn-idle-timeout " \o idle, <<>>)}
+      \cup (IF fa = "" THEN {} ELSE {L("attributes", "vpn-filter value $", <<Key("acl", fa)>>)})
+      \cup (IF g = "" THEN {} ELSE {L("attributes", "vpn-group-policy $", <<Key("gp", g)>>)}))>>
+AclObj(n, gen, h) == <<Key("acl", n), O("acl", n, gen, {L("", "extended permit ip host " \o h \o " any4", <<>>)})>>
+GpObj(n, gen, idle) == <<Key("gp", n), O("gp", n, gen, {L("", "internal", <<>>), L("attributes", "vpn-idle-timeout " \o idle, <<>>)})>>
+\* per user: which filter ACL ("" | "A" | "B") and which group-policy ("" | "G" | "H") it uses
+UCfg(us, sfx) ==
+  LET gen == sfx # ""
+      an(x) == "vpnf" \o x \o sfx   gn(x) == "VPN-group" \o x \o sfx
+      fas == {us[u].f : u \in DOMAIN us} \ {""}   gs == {us[u].g : u \in DOMAIN us} \ {""}
+  IN [objs |-> F({UserObj(u, us[u].idle, IF us[u].f = "" THEN "" ELSE an(us[u].f), IF us[u].g = "" THEN "" ELSE gn(us[u].g)) : u \in DOMAIN us}
+                 \cup {AclObj(an(x), gen, IF x = "A" THEN "10.1.1.1" ELSE "10.1.1.2") : x \in fas}
+                 \cup {GpObj(gn(x), gen, IF x = "G" THEN "60" ELSE "30") : x \in gs})]
+UOpt2 == [f : {"", "A", "B"}, g : {"", "G", "H"}, idle : {"60", "30"}]
+F5U ==
+  \E d \in [{"u1", "u2", "u3"} -> UOpt2], t \in [{"u1", "u2", "u3"} -> UOpt2], sfx \in {"", "-DRC-0"} :
+    \* u3 is a bystander with fixed settings on both sides; u1 and u2 vary
+    /\ d["u3"] = [f |-> "A", g |-> "G", idle |-> "60"] /\ t["u3"] = d["u3"]
+    /\ d["u1"].idle = "60" /\ d["u2"].idle = "60"
+    /\ dev = UCfg(d, sfx)
+    /\ tgt = UCfg(t, "")
 
 (* F6L: crypto maps.  Entries are matched by peer; the device's sequence numbers, map name, ACL and *)
 (* transform-set names differ from the target's; transform-sets are matched by content.             *)
@@ -116,7 +146,31 @@ F6L ==
     /\ dev = Build6(ed, mapn, sfx, tsd, TRUE, dd, ds)
     /\ tgt = Build6(et, "crypto-inside", "", [T1 |-> "Trans1", T2 |-> "Trans2"], TRUE, dt, "65535")
 
-Init == CASE Fam = "F5" -> F5 [] Fam = "F6L" -> F6L
+(* M6: merge of the Netspoc crypto map with settings and a dynamic map from the raw file (C18).  A raw setting *)
+(* replaces the Netspoc setting of the same kind, every other raw line is added; the device is empty            *)
+RawSettings == {"set security-association lifetime seconds 28800", "set security-association lifetime kilobytes 4608000",
+                "set pfs group19", "set nat-t-disable"}
+M6 ==
+  \E rs \in SUBSET RawSettings, nl, np, rd \in BOOLEAN :
+    LET ts   == <<Key("ts", "Trans1"), O("ts", "Trans1", FALSE, {L("", "esp-3des esp-md5-hmac", <<>>)})>>
+        base == {L("1", "set peer 10.9.9.1", <<>>), L("1", "set ikev1 transform-set $", <<Key("ts", "Trans1")>>)}
+        nsp  == base \cup (IF nl THEN {L("1", "set security-association lifetime seconds 3600", <<>>)} ELSE {})
+                     \cup (IF np THEN {L("1", "set pfs group5", <<>>)} ELSE {})
+        keep == base \cup (IF nl /\ "set security-association lifetime seconds 28800" \notin rs
+                           THEN {L("1", "set security-association lifetime seconds 3600", <<>>)} ELSE {})
+                     \cup (IF np /\ "set pfs group19" \notin rs THEN {L("1", "set pfs group5", <<>>)} ELSE {})
+        rawl == {L("1", x, <<>>) : x \in rs}
+        \* a dynamic map that only the raw file defines, with two sequence numbers
+        dynl == {L("10", "set pfs group21", <<>>), L("10", "set ikev1 transform-set $", <<Key("ts", "Trans1")>>), L("20", "set pfs group19", <<>>)}
+        dyno == IF rd THEN {<<Key("dmap", "dynR"), O("dmap", "dynR", FALSE, dynl)>>} ELSE {}
+        dynref == IF rd THEN {L("65000", "ipsec-isakmp dynamic $", <<Key("dmap", "dynR")>>)} ELSE {}
+        cmi  == <<Key("cmi", "inside"), O("cmi", "inside", FALSE, {L("", "$ interface", <<Key("cmap", "crypto-inside")>>)})>>
+        cfg(lines, extra) == [objs |-> F({ts, cmi, <<Key("cmap", "crypto-inside"), O("cmap", "crypto-inside", FALSE, lines)>>} \cup extra)]
+    IN /\ rs # {} \/ rd
+       /\ dev = [objs |-> F({})]
+       /\ tgt = cfg(nsp, {}) @@ [parts |-> [rawlines |-> rs, rawdyn |-> rd, merged |-> cfg(keep \cup rawl \cup dynref, dyno)]]
+
+Init == CASE Fam = "M6" -> M6 [] Fam = "F5U" -> F5U [] Fam = "F5" -> F5 [] Fam = "F6L" -> F6L
 Next == UNCHANGED <<dev, tgt>>
 Out == PrintT(<<"VOUT", ToJson([fam |-> Fam, dev |-> dev, tgt |-> tgt, tie |-> FALSE])>>)
 =============================================================================
